@@ -106,6 +106,28 @@ class C02(Prop):
         out = []
         for c in range(n):
             r = rng.random()
+            if r < 0.14:
+                # allocation-boundary sweep of every growable ESL_SQ field, in file order, well-formed input, all read calls
+                natural = rng.choice(["embl", "uniprot", "genbank", "ddbj"])
+                data, meta = S.gen_boundary_linebased(rng, natural, "amino" if natural == "uniprot" else "dna")
+                ops = ["file ext=dat hex=" + hx(data)]
+                for s_ in range(rng.choice([1, 2])):
+                    abc = rng.choice(["text", "amino" if natural == "uniprot" else "dna"])
+                    ops.append("open fmt=%s abc=%s B=%d" % (rng.choice([natural, natural, "unknown"]), abc, rng.choice(S.BSIZES)))
+                    call = rng.choice(["read", "readinfo", "mixed", "readwin", "readblock"])
+                    k = len(meta["recs"]) + 1
+                    if call == "readwin":
+                        for _ in range(k):
+                            ops += ["readwin C=0 W=100000", "readwin C=0 W=100000", "reuse"]
+                    elif call == "readblock":
+                        ops += ["readblock list=%d maxres=-1 maxseq=-1 init=0 long=0 ctx=0" % rng.choice([1, 2, 8])] * k
+                    elif call == "mixed":
+                        ops += [rng.choice(["read", "readinfo"]) for _ in range(k)]
+                    else:
+                        ops += [call] * k
+                    ops.append("close")
+                out.append({"name": "bound%d" % c, "ops": ops, "sticky": 1})
+                continue
             if r < 0.45:
                 fn = rng.choice(names)
                 data = self.mutate(rng, seeds[fn])
